@@ -32,7 +32,8 @@ from sim.sut import quiet, f
 from engines import history, optsim
 
 ENGINE = 'tolsim'
-FEATS = ['conic', 'asphere', 'poly', 'tilt', 'decenter', 'glass', 'abbe',
+FEATS = ['conic', 'asphere', 'poly', 'cheby', 'tilt', 'decenter', 'glass',
+         'abbe',
          'finite_obj', 'multi_wl', 'planes', 'stop_any', 'aperture', 'mirror',
          'shared_material']
 
@@ -112,6 +113,28 @@ class Program:
         if m.n < 3 or not m.wls or m.aperture is None or not m.fields:
             raise NotApplicable('incomplete lens')
         register_guards(hist)
+        try:
+            self._setup(hist, with_samplers, Tolerancing)
+        except NotApplicable:
+            raise
+        except Exception as e:
+            # e.g. an operand that cannot be evaluated on the nominal lens
+            # (Chebyshev surface hit outside its normalisation box)
+            raise NotApplicable(f'set-up raised {type(e).__name__}')
+        if not self.tol.operands or not self.pspecs:
+            raise NotApplicable('empty tolerancing problem')
+        self.nominal = self.snapshot()
+        m = self.w.model
+        self.uses_thickness = any(s['type'] == 'thickness'
+                                  for s in self.pspecs + self.cspecs)
+        self.index_on_real_medium = any(
+            s['type'] == 'index' and m.surfs[s['k']]['mat'][0] not in
+            ('air',) and (m.surfs[s['k']]['mat'][0] != 'ideal' or
+                          (len(m.surfs[s['k']]['mat']) > 2 and
+                           m.surfs[s['k']]['mat'][2] != 0))
+            for s in self.pspecs + self.cspecs)
+
+    def _setup(self, hist, with_samplers, Tolerancing):
         with quiet(), warnings.catch_warnings():
             warnings.simplefilter('ignore')
             self.tol = Tolerancing(self.lens, method=hist.get('method',
@@ -139,17 +162,6 @@ class Program:
                 self.tol.add_compensator(spec['type'],
                                          **optsim.var_kwargs(spec))
                 self.cspecs.append(spec)
-        if not self.tol.operands or not self.pspecs:
-            raise NotApplicable('empty tolerancing problem')
-        self.nominal = self.snapshot()
-        self.uses_thickness = any(s['type'] == 'thickness'
-                                  for s in self.pspecs + self.cspecs)
-        self.index_on_real_medium = any(
-            s['type'] == 'index' and m.surfs[s['k']]['mat'][0] not in
-            ('air',) and (m.surfs[s['k']]['mat'][0] != 'ideal' or
-                          (len(m.surfs[s['k']]['mat']) > 2 and
-                           m.surfs[s['k']]['mat'][2] != 0))
-            for s in self.pspecs + self.cspecs)
 
     def applicable(self, spec, comp=False):
         m = self.w.model
@@ -172,6 +184,8 @@ class Program:
                 spec['coeff_number'] < len(m.surfs[k]['coeffs'] or [])
         if t == 'polynomial_coeff':
             return kind == 'polynomial'
+        if t == 'chebyshev_coeff':
+            return kind == 'chebyshev'
         return False
 
     def snapshot(self):
@@ -396,11 +410,15 @@ class Sim:
                                  v == spec['nominal'])
                    for v, spec in zip(values, specs)) and not P.cspecs:
                 if nominal_vals is None:
-                    N = Program(self.hist, self.stats, with_samplers=False,
-                                share=False)
-                    with quiet(), warnings.catch_warnings():
-                        warnings.simplefilter('ignore')
-                        nominal_vals = [float(v) for v in N.tol.evaluate()]
+                    try:
+                        N = Program(self.hist, self.stats,
+                                    with_samplers=False, share=False)
+                        with quiet(), warnings.catch_warnings():
+                            warnings.simplefilter('ignore')
+                            nominal_vals = [float(v)
+                                            for v in N.tol.evaluate()]
+                    except Exception:
+                        continue
                 self.stats['oracle_checks'] += 1
                 for nme, nv in zip(names, nominal_vals):
                     if not close(row.get(nme), nv, exact, scale):
@@ -461,7 +479,7 @@ def nominal_of(m, spec):
         return history.ref_n(s['mat'], spec['wavelength'])
     if t == 'asphere_coeff':
         return s['coeffs'][spec['coeff_number']]
-    if t == 'polynomial_coeff':
+    if t in ('polynomial_coeff', 'chebyshev_coeff'):
         i, j = spec['coeff_index']
         c = s['coeffs']
         return c[i][j] if i < len(c) and j < len(c[i]) else 0.0
@@ -484,7 +502,7 @@ def _seed(ch):
 
 def gen_perturbation(ch, m, mode, harsh):
     spec = optsim.gen_variable(ch, m)
-    if spec is None or spec['type'] == 'chebyshev_coeff':
+    if spec is None:
         return None
     for k in ('min', 'max', 'scaled', 'step'):
         spec.pop(k, None)
@@ -556,7 +574,7 @@ def run_one(prop, run_seed, run_index, cfg):
     if ch.chance(0.45):
         for _ in range(ch.randint(1, 2)):
             c = optsim.gen_variable(ch, m)
-            if c is None or c['type'] in ('chebyshev_coeff',):
+            if c is None:
                 continue
             if ch.chance(0.5):
                 c['type'], c['k'] = 'thickness', m.n - 2   # focus
